@@ -1,6 +1,7 @@
 import GwModel.Select
 import GwModel.Gen.Facts
 import GwModel.PlanPlaced
+import GwModel.NewOpts
 /-! # C20 — Multi-homed fields are fetched by priority, then locality
 
 The chooser of plan.go is modelled by `Sel.selectLocation`, instantiated with the priority order extracted
@@ -11,7 +12,10 @@ open Facts Sel
 
 def ChooserFactsSafe : Prop :=
   Sel.FactsSafe Gen.selectLoc ∧ Gen.chooserPlain = .selectLocation ∧ Gen.chooserNamed = .selectLocation ∧
-  Gen.chooserInline = .selectLocation
+  Gen.chooserInline = .selectLocation ∧
+  -- how New takes its options (model Nw): the options only write fields; the planner installed by then is handed
+  -- the priorities after the loop over the options
+  Gen.newOpts.plannerSets = true ∧ Gen.newOpts.prioritiesSet = true ∧ Gen.newOpts.handOverAfterOptions = true
 
 instance : Decidable ChooserFactsSafe := by unfold ChooserFactsSafe; exact inferInstance
 
@@ -80,5 +84,23 @@ theorem every_field_is_fetched_where_the_rule_puts_it {env : Pl.Env} {fuel : Nat
 theorem asked_again_chosen_again {env : Pl.Env} {pl : Pl.Loc} {T f : String} {l : Pl.Loc}
     (h : Pl.locate env pl T f = .ok l) : Pl.locate env l T f = .ok l :=
   Pl.locate_stable h
+
+/-- **the configured priorities reach the planner that is installed, wherever its option stands** (`Nw`, the model
+    of how `New` takes its options, tied by L2.new-options) -/
+theorem priorities_reach_the_installed_planner (p : Nat) (l : List String) (rest : List Nw.Opt)
+    (hp : ∀ o ∈ rest, Nw.plannerOf o = none ∧ Nw.prioritiesOf o = none) :
+    let b1 := Nw.build (.planner p :: .priorities l :: rest)
+    let b2 := Nw.build (.priorities l :: .planner p :: rest)
+    b1 = b2 ∧ b1.planner = p ∧ b1.toldPriorities = some l := Nw.priorities_reach_the_planner p l rest hp
+
+/-- … in general: the installed planner is the last one given (else the default) and is told the last priority list -/
+theorem the_last_planner_is_told_the_last_priorities (opts : List Nw.Opt) :
+    (Nw.build opts).planner = (Nw.lastSome Nw.plannerOf opts).getD 0 ∧
+    (Nw.build opts).toldPriorities = Nw.lastSome Nw.prioritiesOf opts := by
+  rw [Nw.build_eq]; exact ⟨rfl, rfl⟩
+
+/-- non-vacuity -/
+example : (Nw.build [.priorities ["B", "A"], .other, .planner 2]).toldPriorities = some ["B", "A"] ∧
+    (Nw.build [.planner 2, .priorities ["B", "A"]]).toldPriorities = some ["B", "A"] := by decide
 
 end Props.C20
